@@ -79,6 +79,20 @@ type FuncContract struct {
 	GhostUpd []GhostUpdate
 	At       []AtClause
 	OnlyFlows []OnlyFlow
+	Propagates []Propagate
+}
+
+// Propagate: a failure reported by a call to one of Callees (name or name#k; "*" = every call whose
+// last result is an error) makes this function report a failure too: it returns a non-nil last result
+// before it makes another iteration of an enclosing loop. Names prefixed with "!" are exempt.
+type Propagate struct {
+	Callees []string
+	Except  []string
+	Props   []string
+	Label   string
+	Line    int
+	Unless  Expr // the failure may be dropped when this holds at the return
+	UnlessSrc string
 }
 
 // OnlyFlow: parameter Param may only be used as an argument of calls to one of Callees.
@@ -126,6 +140,8 @@ type Contracts struct {
 	Axioms   []Clause
 	Ghosts   map[string]*GhostVar
 	GhostOrder []string
+	LastArg  map[string]bool // callees some clause names in lastarg("callee", i)
+	IgnorableErr map[string]bool // callees whose error result may be dropped (writes to the output and to in-memory buffers)
 	NonNil   map[string][]string // heap key (E|..., MV|..., B|*T) -> props: pointers stored there are never nil
 	Regions  map[string]string // type name -> region
 	PureNames map[string]*FuncContract
@@ -144,6 +160,7 @@ type Contracts struct {
 }
 
 var countedRe = regexp.MustCompile(`calls\("([^"]+)"\)`)
+var lastArgRe = regexp.MustCompile(`lastarg\("([^"]+)"`)
 
 func ParseContractsFile(path string) (*Contracts, error) {
 	cs := &Contracts{Path: path, Funcs: map[string]*FuncContract{}, TypeInvs: map[string]*TypeInv{},
@@ -176,6 +193,12 @@ func ParseContractsFile(path string) (*Contracts, error) {
 		}
 		for _, m := range countedRe.FindAllStringSubmatch(body, -1) {
 			cs.Counted[m[1]] = true
+		}
+		for _, m := range lastArgRe.FindAllStringSubmatch(body, -1) {
+			if cs.LastArg == nil {
+				cs.LastArg = map[string]bool{}
+			}
+			cs.LastArg[m[1]] = true
 		}
 		if pending != "" {
 			body = pending + " " + body
@@ -338,6 +361,37 @@ func ParseContractsFile(path string) (*Contracts, error) {
 				return nil, fail(fmt.Errorf("usage: onlyflows <param> <callee>..."))
 			}
 			cur.OnlyFlows = append(cur.OnlyFlows, OnlyFlow{Param: fsx[0], Callees: fsx[1:], Props: props})
+		case "propagates":
+			// propagates {props} [@label] <callee|callee#k|*|!callee> ...
+			if cur == nil {
+				return nil, fail(fmt.Errorf("propagates outside function contract"))
+			}
+			props, r := parseProps(rest)
+			r = strings.TrimSpace(r)
+			label := ""
+			if strings.HasPrefix(r, "@") {
+				label, r = splitWord(r[1:])
+			}
+			pg := Propagate{Props: props, Label: label, Line: ln}
+			if i := strings.Index(r, " unless "); i >= 0 {
+				ux, err := ParseExpr(strings.TrimSpace(r[i+8:]))
+				if err != nil {
+					return nil, fail(err)
+				}
+				pg.Unless, pg.UnlessSrc = ux, strings.TrimSpace(r[i+8:])
+				r = r[:i]
+			}
+			for _, f := range strings.Fields(r) {
+				if strings.HasPrefix(f, "!") {
+					pg.Except = append(pg.Except, f[1:])
+				} else {
+					pg.Callees = append(pg.Callees, f)
+				}
+			}
+			if len(pg.Callees) == 0 {
+				return nil, fail(fmt.Errorf("usage: propagates {props} [@label] <callee>..."))
+			}
+			cur.Propagates = append(cur.Propagates, pg)
 		case "ghostset":
 			if cur == nil {
 				return nil, fail(fmt.Errorf("ghostset outside function contract"))
@@ -405,6 +459,15 @@ func ParseContractsFile(path string) (*Contracts, error) {
 			props, r := parseProps(rest)
 			for _, k := range strings.Fields(r) {
 				cs.NonNil[k] = props
+			}
+			cur, curType = nil, nil
+		case "ignorable-errors":
+			// ignorable-errors callee... : "propagates *" does not cover calls to these
+			if cs.IgnorableErr == nil {
+				cs.IgnorableErr = map[string]bool{}
+			}
+			for _, k := range strings.Fields(rest) {
+				cs.IgnorableErr[k] = true
 			}
 			cur, curType = nil, nil
 		case "freshonly":
